@@ -193,6 +193,11 @@ void Search::go()
     }
     iter_search();
 
+    // the search was interrupted before the first iteration finished:
+    // any root move is better than no move
+    if (_best_move == NO_MOVE && !_root_moves.empty())
+        _best_move = _root_moves.front();
+
     ASSERT(_best_move != NO_MOVE);
     VERIF_POINT(VERIF_PT_GO_BEFORE_BESTMOVE, this, 0);
     sync_cout << "bestmove " << _position.uci(_best_move) << sync_endl;
